@@ -11,11 +11,17 @@ def known_sig(r, p):
     return None
 
 def run(rep, tier, seed):
-    pr = vlib.coq_check('C03'); rep.add_proof(pr)
+    pr = vlib.coq_check('C03')
+    pr2 = vlib.coq_check('C03b')      # the buffered writable file: every record reaches write(2) before add_record returns
+    pr['theorems'] += pr2['theorems']; pr['ok'] = pr['ok'] and pr2['ok']; pr['closed_count'] = pr.get('closed_count', 0) + pr2.get('closed_count', 0)
+    pr['axioms'] = sorted(set(pr['axioms']) | set(pr2['axioms'])); pr['log'] += pr2['log']; pr['file'] += ' + coq/theories/Properties_C03b.v'
+    rep.add_proof(pr)
     if not pr['ok']:
         rep.violation({'kind': 'proof-broken', 'log': pr['log'][-3000:], 'forbidden': pr['forbidden']}, suffix='no-failing-input-found')
     nh, nops, mp = (8, 30, 150) if tier == 'quick' else (200, 60, 100000)
     k3check.run_crash(rep, 'C03', tier, seed, ['written'], nh, nops, mp, OPTS, known_sig=known_sig, nested=(40 if tier == 'quick' else 6))
+    import extra_wfile
+    extra_wfile.run_segment(rep, tier, seed)      # predicted write(2)/fsync sequence of the WFile model vs the traced calls
     rep.cov['rule'] = ('write histories (batches with marker keys, mixed sync flags, flush/compact/reopen) run under libc interposition; '
                        'for every (sampled in quick) syscall boundary the byte-exact image of everything that reached write(2) is '
                        'materialised and the real ldb_open + full scan is compared with the contract: contents = all acknowledged batches in order '
